@@ -100,6 +100,10 @@ def _apply(objs, op, values):
         p = _fixp(arg)
         o.properties.update({p["attr"]: Property(drive.build_element(p["elem"]), required=bool(p["required"]),
                                                  source=(p["source"] if p["source"] != p["attr"] else None))})
+        # update() does not bind the property to its name; the library binds when the element is
+        # next used.  The step of the specification is "update, then first use": one validation call
+        # (whose outcome is not looked at) completes it, so that the JSON name is fixed as PutProp says.
+        drive.call(o, {})
     elif name == "delprop":
         del o.properties[arg[0]]
     elif name == "moveprop":
